@@ -11,7 +11,7 @@
               `-` when the analyzer reports no endpoints (nothing can be emitted for the frame).
    T result:  adm=<i,j,..>  0-based indices of the frames that have analyzer endpoints and that apply() admits;
               SPEC: indices of the frames whose analyzer endpoints the documented rule admits.
-   addr: 4:<hex8> | 6:<hex32>;  known = 1 iff a frame is in the class RawFrame.loopback_mismatch. *)
+   addr: 4:<hex8> | 6:<hex32>;  known = 0 always: no known class is left after fix 3908c86. *)
 From Coq Require Import List NArith Bool.
 From Coq Require Import Strings.Byte.
 From HN Require Import Base.Bytes Model.Filter Model.RawFrame Spec.FilterSpec Spec.CommuteSpec Extract.EC14.
@@ -66,7 +66,7 @@ Definition run_line (l : bytes) : bytes :=
                     let a := analyzer_endpoints f in
                     out3 (f_line q a (raw_apply (build c) f))
                          (match a with Some e => f_line q a (spec_passes c e) | None => bs "-" end)
-                         (loopback_mismatch f)
+                         false
                 | None => bad end
             | _ => bad end
           else if bytes_eqb k (bs "T") then
@@ -74,7 +74,7 @@ Definition run_line (l : bytes) : bytes :=
             | _ :: hs =>
                 match read_frames hs with
                 | Some fs => out3 (adm_line (model_admits c) fs) (adm_line (spec_admits c) fs)
-                                  (existsb loopback_mismatch fs)
+                                  false
                 | None => bad end
             | _ => bad end
           else bad
@@ -83,8 +83,8 @@ Definition run_line (l : bytes) : bytes :=
 
 Example run_line_ex :
   run_line (bs "A P d:443 E F 1e0000004500002800004000400600000a0000010a0000023039005000000000000000005002ffff00000000")
-  = bs "quick=FAILOPEN analyzer=4:0a000001 4:0a000002 12345 80 pass=1" ++ tab ::
-    bs "quick=FAILOPEN analyzer=4:0a000001 4:0a000002 12345 80 pass=0" ++ tab :: bs "1".
+  = bs "quick=4:0a000001 4:0a000002 12345 80 analyzer=4:0a000001 4:0a000002 12345 80 pass=0" ++ tab ::
+    bs "quick=4:0a000001 4:0a000002 12345 80 analyzer=4:0a000001 4:0a000002 12345 80 pass=0" ++ tab :: bs "0".
 Proof. vm_compute. reflexivity. Qed.
 
 Require Extraction.
